@@ -515,4 +515,226 @@ example :
     (by decide) (by decide) (by decide) (by decide) (by decide) (by decide) (by decide)
   exact ⟨h.1, h.2.2.2.1⟩
 
+/-! ### the comparison with the uninterrupted exchange when the responder holds (at least) the blocks
+loaded before the re-opening; blocks may be missing on either side after that point -/
+
+/-- the reference traversal does not change when the store already holds the blocks of a prefix whose
+    links the responder holds too (they would be fetched at their first visit anyway) -/
+theorem refTrav_prefix_rem (rem : Cid → Bool) : ∀ (pre tl : LT) (st st' : List (Cid × Blk)),
+    (∀ m ∈ pre, rem m.cid = true) →
+    (∀ c, holds st' c = (holds st c || pre.any (fun m => m.cid == c))) →
+    (refTrav rem (pre ++ tl) st' none).1 = (refTrav rem (pre ++ tl) st none).1 ∧
+    ∀ c, holds (refTrav rem (pre ++ tl) st' none).2 c = holds (refTrav rem (pre ++ tl) st none).2 c
+  | [], tl, st, st', _, h => by
+    simp only [List.nil_append]
+    exact refTrav_congr rem tl.length tl (Nat.le_refl _) st st' none (by intro c; rw [h c]; simp)
+  | n :: pre, tl, st, st', hr, h => by
+    have hrn : rem n.cid = true := hr n (by simp)
+    have hd : dead1 none n = none := rfl
+    have hdd : (if (dead1 none n).isNone && !rem n.cid then some n.depth else dead1 none n) = none := by
+      simp [hd, hrn]
+    have hst' : holds st' n.cid = true := by rw [h n.cid]; simp
+    simp only [List.cons_append]
+    rw [refTrav_holds rem n (pre ++ tl) st' none hst', hdd]
+    cases hh : holds st n.cid with
+    | true =>
+      rw [refTrav_holds rem n (pre ++ tl) st none hh, hdd]
+      have ih := refTrav_prefix_rem rem pre tl st st' (fun m hm => hr m (by simp [hm])) (by
+        intro c
+        rw [h c]
+        simp only [List.any_cons]
+        by_cases hc : (n.cid == c) = true
+        · have : n.cid = c := eq_of_beq hc
+          subst this
+          simp [hh]
+        · simp [hc])
+      exact ⟨by simp [ih.1], ih.2⟩
+    | false =>
+      rw [refTrav_remote rem n (pre ++ tl) st none hh (by simp [hd, hrn]), hd]
+      have ih := refTrav_prefix_rem rem pre tl ((n.cid, n.cid) :: st) st' (fun m hm => hr m (by simp [hm])) (by
+        intro c
+        rw [h c, holds_cons_eq]
+        simp only [List.any_cons]
+        cases (n.cid == c) <;> cases holds st c <;> simp)
+      exact ⟨by simp [ih.1], ih.2⟩
+
+/-- the uninterrupted request has loaded its local prefix before any message arrives -/
+theorem exchange_nBlocks_prefix (loc : List (Cid × Blk)) (pre : LT) (n : LNode) (post : LT) (u : Nat)
+    (msgs : List Requestor.Msg) (hheld : ∀ m ∈ pre, holds loc m.cid = true) (hmiss : holds loc n.cid = false) :
+    pre.length ≤ (Requestor.exchange loc (pre ++ n :: post) u msgs).1.nBlocks := by
+  obtain ⟨a, _, _, hreq⟩ := request_prefix loc pre n post u hheld hmiss
+  have hex : (Requestor.exchange loc (pre ++ n :: post) u msgs).1 =
+      (feed (Requestor.request { L := { store := loc } } (pre ++ n :: post) u).1 msgs).1 := rfl
+  rw [hex, hreq]
+  have := feed_nBlocks msgs
+    ({ L := { Loader.setOnline (Loader.load (walk ({ store := loc } : Loader.State) pre).2 n.path n.cid).1 true with
+                  mra := none, pending := some (a.path, a.link) },
+         todo := n :: post, phase := .running, requestSent := true, nBlocks := pre.length, userSkip := u } : Requestor.State)
+  exact this
+
+/-- **C06.requestor_pause_resume_online_prefix** — `requestor_pause_resume_online` without the assumption
+    that the responder holds the whole DAG: it is enough that the responder holds the blocks of the `w`
+    links loaded BEFORE THE RE-OPENING (`hremw`; `w` = the do-not-send-first-blocks value of the re-sent
+    request = the number of blocks loaded so far — this is the negation of `resume-skip-prefix-mismatch` and,
+    for the first request, of `skip-prefix-mismatch` / `root-not-found-abort`).  After that point blocks may be
+    missing on either side: the paused and resumed exchange reports the same delivered blocks AND the
+    same missing-block errors, in the same order, and ends with the same stored blocks as the
+    uninterrupted exchange (both are the reference traversal `refTrav rem lt loc`).  Other hypotheses as in
+    `requestor_pause_resume_online`. -/
+theorem requestor_pause_resume_online_prefix (rem : Cid → Bool) (loc : List (Cid × Blk)) (hloc : HonestStore loc)
+    (root : LNode) (pre0' : LT) (n0 : LNode) (post0 : LT) (k : Nat) (m1 : List Requestor.Msg) (M : Requestor.Msg)
+    (w st1 st2 : Nat) (hst1 : st1 = 20 ∨ st1 = 21) (hst2 : st2 = 20 ∨ st2 = 21)
+    (hremw : ∀ m ∈ (root :: pre0' ++ n0 :: post0).take w, rem m.cid = true)
+    (hwf : Loader.WF (root :: pre0' ++ n0 :: post0)) (hroot0 : root.path = [])
+    (hne : ∀ m ∈ pre0' ++ n0 :: post0, m.path ≠ []) (hdep : ∀ m ∈ pre0' ++ n0 :: post0, m.depth ≠ 0)
+    (hdfs : PathsDFS ((root :: pre0' ++ n0 :: post0).map (·.path)))
+    (hheld0 : ∀ m ∈ root :: pre0', holds loc m.cid = true) (hmiss0 : holds loc n0.cid = false)
+    (hwk : ∀ m, PauseResume.Op.msg m ∈ m1.map toOp ++ [toOp M] → WellKeyed m.blocks)
+    (hpre : (Requestor.exchange loc (root :: pre0' ++ n0 :: post0) 0 m1).1.nBlocks < k)
+    (hctx : (Requestor.exchange loc (root :: pre0' ++ n0 :: post0) 0 m1).1.ctxCancelled = false)
+    (hfail : isFailure M.status = false)
+    (hfol : ∀ m ∈ m1 ++ [M], ∀ e ∈ m.md, e.2.didFollow = true) :
+    let lt := root :: pre0' ++ n0 :: post0
+    let items0 := respItemsW rem lt [] (pre0'.length + 1)
+    let base := Requestor.exchange loc lt 0 [⟨true, true, st1, mdOf items0, blocksOfItems items0⟩]
+    let pausedX := PauseResume.exchange loc lt 0 [k] (m1.map toOp ++ [toOp M])
+    let parkedX := PauseResume.exchange loc lt 0 [k] (m1.map toOp ++ [toOp M, PauseResume.Op.unpause])
+    let items := respItemsW rem lt [] w
+    let res := PauseResume.exchange loc lt 0 [k]
+      (m1.map toOp ++ [toOp M, PauseResume.Op.unpause, toOp ⟨true, true, st2, mdOf items, blocksOfItems items⟩])
+    pausedX.1.paused = true →
+    missingOf pausedX.2 = [] →
+    sentNews parkedX.2 = sentNews pausedX.2 ++ [w] →
+    resultsOf res.2 = resultsOf base.2 ∧
+    PauseResume.blocksOf res.2 = PauseResume.blocksOf base.2 ∧ missingOf res.2 = missingOf base.2 ∧
+    (∀ c, holds res.1.R.L.store c = holds base.1.L.store c) ∧
+    res.1.paused = false ∧
+    resultsOf res.2 = (refTrav rem lt loc none).1.map keyOf := by
+  intro lt items0 base pausedX parkedX items res hpaused hnm hre
+  -- the state at the re-opening
+  obtain ⟨rP, pre', n, rest, hpk1, hlt', h5, hkK, hw, hresP, ⟨ldq, hqq⟩, hunf0⟩ :=
+    reopen_reached loc hloc root (pre0' ++ n0 :: post0) 0 k m1 M w hwk hpre hctx hfail hpaused hnm hre
+  have hpk1' : parkedX.1 = hooked [k] rP := hpk1
+  have hlt'' : lt = root :: pre' ++ n :: rest := hlt'
+  have hunf : parkedX.1.R.L.unfollowed = [] := by rw [hpk1']; exact hunf0 hfol
+  have hstore : parkedX.1.R.L.store = rP.L.store := by rw [hpk1']; rfl
+  have hw' : w = (root :: pre').length := by rw [hw]; simp
+  have htake : lt.take w = root :: pre' := by rw [hlt'', hw']; simp
+  have hremP : ∀ m ∈ root :: pre', rem m.cid = true := fun m hm => hremw m (by
+    show m ∈ lt.take w
+    rw [htake]; exact hm)
+  have hremroot : rem root.cid = true := hremP root (by simp)
+  -- the local prefix of the first request lies inside the blocks loaded before the re-opening
+  have hN0 : pre0'.length + 1 ≤ w := by
+    have h1 := exchange_nBlocks_prefix loc (root :: pre0') n0 post0 0 m1 hheld0 hmiss0
+    have h2 : (root :: pre0').length ≤ (Requestor.exchange loc lt 0 m1).1.nBlocks := h1
+    have h3 : (Requestor.exchange loc lt 0 m1).1.nBlocks < k := hpre
+    simp only [List.length_cons] at h2
+    rw [hw']
+    simp only [List.length_cons]
+    omega
+  have hrem0 : ∀ m ∈ root :: pre0', rem m.cid = true := fun m hm => hremw m (by
+    have h1 : (root :: pre0' ++ n0 :: post0).take (pre0'.length + 1) = root :: pre0' := by simp
+    have h2 : ((root :: pre0' ++ n0 :: post0).take w).take (pre0'.length + 1) = root :: pre0' := by
+      rw [List.take_take, Nat.min_eq_left hN0, h1]
+    rw [← h2] at hm
+    exact List.mem_of_mem_take hm)
+  -- the uninterrupted exchange is the reference traversal over the initial store
+  have hbase := GS.C02.exchange_complete_prefix rem loc root pre0' n0 post0 st1 hst1 hwf hroot0 hne
+    (fun m hm => hdep m (List.mem_append_right _ hm))
+    (by
+      have : (root :: pre0' ++ n0 :: post0).map (·.path) = (root :: pre0').map (·.path) ++ (n0 :: post0).map (·.path) := by simp
+      exact PathsDFS.prefix _ (this ▸ hdfs))
+    hheld0 hmiss0 hremroot
+    (fun it hit _ => win_of_prefix_held rem loc (root :: pre0') (n0 :: post0) [] hrem0 hheld0 it hit)
+  simp only at hbase
+  obtain ⟨b1, _, b3⟩ := hbase
+  have b1' : resultsOf base.2 = (refTrav rem lt loc none).1.map keyOf := b1
+  have b3' : ∀ c, holds base.1.L.store c = holds (refTrav rem lt loc none).2 c := b3
+  -- the resumed request
+  have hwin : ∀ it ∈ items.take w, it.action = .present → holds parkedX.1.R.L.store it.link = true := by
+    intro it hit _
+    rw [hstore]
+    have hitems : items = respItemsW rem ((root :: pre') ++ n :: rest) [] (root :: pre').length := by
+      show respItemsW rem lt [] w = _
+      rw [hlt'', hw']
+    rw [hitems, hw'] at hit
+    exact win_of_prefix_held rem rP.L.store (root :: pre') (n :: rest) [] hremP h5.held it hit
+  obtain ⟨a1, a2, a3⟩ := requestor_reopen_online rem loc hloc root (pre0' ++ n0 :: post0) 0 k m1 M w st2 hst2
+    hwf hroot0 hne hdep hdfs hwk hpre hctx hfail hpaused hnm hre hunf hremroot hwin
+  have a1' : resultsOf res.2 = (refTrav rem lt parkedX.1.R.L.store none).1.map keyOf := a1
+  have a2' : ∀ c, holds res.1.R.L.store c = holds (refTrav rem lt parkedX.1.R.L.store none).2 c := a2
+  -- the store at the re-opening = the initial store + the blocks of the links loaded so far
+  have hld : ldq = root :: pre' := hqq.unique (by rw [h5.todo]; exact hlt'')
+  subst hld
+  have hS : ∀ c, holds parkedX.1.R.L.store c = (holds loc c || (root :: pre').any (fun m => m.cid == c)) := by
+    intro c
+    rw [hstore]
+    cases hl : holds loc c with
+    | true => rw [hqq.mono c hl]; rfl
+    | false =>
+      cases ha : (root :: pre').any (fun m => m.cid == c) with
+      | true =>
+        obtain ⟨m, hm, hmc⟩ := List.any_eq_true.mp ha
+        have : m.cid = c := eq_of_beq hmc
+        rw [← this]
+        exact h5.held m hm
+      | false =>
+        cases hs : holds rP.L.store c with
+        | false => rfl
+        | true =>
+          exfalso
+          rcases hqq.origL h5.run c hs with h | ⟨m, hm, hmc⟩
+          · rw [hl] at h; cases h
+          · have : (root :: pre').any (fun m => m.cid == c) = true := List.any_eq_true.mpr ⟨m, hm, by simp [hmc]⟩
+            rw [ha] at this; cases this
+  have hpr := refTrav_prefix_rem rem (root :: pre') (n :: rest) loc parkedX.1.R.L.store hremP hS
+  have hltE : (root :: pre') ++ n :: rest = lt := by rw [hlt'']
+  rw [hltE] at hpr
+  have hres_eq : resultsOf res.2 = resultsOf base.2 := by rw [a1', b1', hpr.1]
+  refine ⟨hres_eq, ?_, ?_, ?_, a3, ?_⟩
+  · rw [blocksOf_resultsOf, blocksOf_resultsOf, hres_eq]
+  · rw [missingOf_resultsOf, missingOf_resultsOf, hres_eq]
+  · intro c
+    rw [a2' c, b3' c, hpr.2 c]
+  · rw [hres_eq, b1']
+
+/-- non-vacuity of `requestor_pause_resume_online_prefix`, with a block missing on both sides AFTER the
+    re-opening point (concrete values): the exchange of the examples above, but the responder lacks
+    block 4.  The theorem applies (hypotheses discharged by evaluation); both exchanges deliver 9, 2, 3 and
+    report link 4 missing. -/
+example :
+    let root : LNode := ⟨9, [], 0, 1, 0⟩
+    let n2 : LNode := ⟨2, [0], 1, 1, 0⟩
+    let n3 : LNode := ⟨3, [1], 1, 1, 0⟩
+    let n4 : LNode := ⟨4, [2], 1, 1, 0⟩
+    let lt : LT := root :: [] ++ n2 :: [n3, n4]
+    let rem : Cid → Bool := fun c => [9, 2, 3].contains c
+    let loc : List (Cid × Blk) := [(9, 9)]
+    let M : Requestor.Msg := ⟨true, true, 14, [(9, .present), (2, .present)], [(2, 2)]⟩
+    let items := respItemsW rem lt [] 2
+    let items0 := respItemsW rem lt [] ([] : LT).length.succ
+    let res := PauseResume.exchange loc lt 0 [2]
+      (([] : List Requestor.Msg).map toOp ++ [toOp M, PauseResume.Op.unpause, toOp ⟨true, true, 21, mdOf items, blocksOfItems items⟩])
+    let base := Requestor.exchange loc lt 0 [⟨true, true, 21, mdOf items0, blocksOfItems items0⟩]
+    (resultsOf res.2 = resultsOf base.2 ∧ missingOf res.2 = missingOf base.2 ∧
+      (∀ c, holds res.1.R.L.store c = holds base.1.L.store c)) ∧
+    PauseResume.blocksOf res.2 = [(9, []), (2, [0]), (3, [1])] ∧ missingOf res.2 = [(4, [2])] := by
+  intro root n2 n3 n4 lt rem loc M items items0 res base
+  have h := requestor_pause_resume_online_prefix rem loc (by intro c b h; simp [loc] at h; rw [h.1, h.2])
+    root [] n2 [n3, n4] 2 [] M 2 21 21 (Or.inr rfl) (Or.inr rfl)
+    (by decide) (by simp [Loader.WF, subOf, skipSub, below, root, n2, n3, n4]) rfl (by decide) (by decide) (by decide)
+    (by decide) (by decide)
+    (by intro m hm; simp [toOp, M] at hm; subst hm; intro k b h; simp at h; rw [h.1, h.2])
+    (by decide) (by decide) (by decide) (by decide) (by decide) (by decide) (by decide)
+  refine ⟨⟨h.1, h.2.2.1, h.2.2.2.1⟩, ?_, ?_⟩
+  · have : items = [⟨9, .present, none⟩, ⟨2, .present, none⟩, ⟨3, .present, some 3⟩, ⟨4, .missing, none⟩] := by
+      simp [items, respItemsW, rem, lt, root, n2, n3, n4, skipSub]
+    simp only [res, this]
+    decide
+  · have : items = [⟨9, .present, none⟩, ⟨2, .present, none⟩, ⟨3, .present, some 3⟩, ⟨4, .missing, none⟩] := by
+      simp [items, respItemsW, rem, lt, root, n2, n3, n4, skipSub]
+    simp only [res, this]
+    decide
+
 end GS.C06
